@@ -50,6 +50,30 @@ def thorough(rep):
     return rep.tier == "thorough"
 
 
+class TimeLimit:
+    """a real call that does not return within the limit is a failed case (the real code loops on a small input)"""
+
+    class Expired(Exception):
+        pass
+
+    def __init__(self, seconds):
+        self.seconds = seconds
+
+    def __enter__(self):
+        import signal
+
+        def handler(signum, frame):
+            raise TimeLimit.Expired()
+        self.old = signal.signal(signal.SIGALRM, handler)
+        signal.setitimer(signal.ITIMER_REAL, self.seconds)
+
+    def __exit__(self, *a):
+        import signal
+        signal.setitimer(signal.ITIMER_REAL, 0)
+        signal.signal(signal.SIGALRM, self.old)
+        return False
+
+
 # =========================================================================================== C18: merging records
 
 def case_merge_cvrs(rep):
@@ -1030,7 +1054,11 @@ def case_raire(rep):
                         rep.case(inp, nontrivial=len(ballots) >= 2)
                         con = RU.Contest("con", list(cands), winner, total, order=list(hint))
                         try:
-                            res = compute_raire_assertions(con, copy.deepcopy(cvrs), winner, asn_func, False, agap=0)
+                            with TimeLimit(10):
+                                res = compute_raire_assertions(con, copy.deepcopy(cvrs), winner, asn_func, False, agap=0)
+                        except TimeLimit.Expired:
+                            rep.fail("compute_raire_assertions returns (within 10 s on a profile of <= 6 ballots)", inp, got="no result after 10 s")
+                            continue
                         except Exception as ex:
                             rep.fail("compute_raire_assertions does not raise", inp, got=type(ex).__name__ + ": " + str(ex)[:100])
                             continue
